@@ -5,6 +5,7 @@ cd /verif
 git -C /repo apply /verif/seeded/$id/patch.diff || { echo "patch does not apply"; exit 3; }
 for c in "$@"; do
   bin/check $c quick > /verif/.cache/seedrun_${id}_$c.txt 2>&1; rc=$?
+  echo "$(date -u +%FT%TZ) bin/check $c quick exit=$rc; $(grep -c '^VIOLATION' /verif/.cache/seedrun_${id}_$c.txt) VIOLATION lines; $(tail -1 /verif/.cache/seedrun_${id}_$c.txt)" >> /verif/seeded/$id/checks_run.txt
   echo "$id $c exit=$rc $(grep -c '^VIOLATION' /verif/.cache/seedrun_${id}_$c.txt) violation lines; $(tail -1 /verif/.cache/seedrun_${id}_$c.txt)"
 done
 git -C /repo checkout -- .
